@@ -33,7 +33,7 @@ echo "patched demo rc=$MUT_RC" >>"$LOG"
 SUITE_RES="skipped"
 if [ $SUITE = 1 ]; then
   echo "== suite on patched" >>"$LOG"
-  cargo nextest run --workspace --no-fail-fast --tool-config-file pb:/w/lib/nextest.toml --profile pb --test-threads 8 --offline --build-jobs 8 > "$S/suite.log" 2>&1
+  cargo nextest run --workspace --no-fail-fast --tool-config-file pb:/w/lib/nextest.toml --profile pb --test-threads 8 --retries 2 --offline --build-jobs 8 > "$S/suite.log" 2>&1
   SUITE_RES="$(grep -E '^ +Summary' "$S/suite.log" | tail -1 | sed 's/^ *//')"
   grep -E "^ +FAIL" "$S/suite.log" | sort -u | sed 's/\[.*\] *([0-9/]*) //' >>"$LOG"
   echo "suite: $SUITE_RES" >>"$LOG"
